@@ -25,12 +25,14 @@ inductive XItem (α : Type) where
   | timer (t : Timer (ScalableValue α))
 
 /-- a block as the analysis reads it: a step; a section line (trimmed name); a plain `>>` entry (trimmed
-    key, outer-trimmed value); a text paragraph (its joined text) -/
+    key, outer-trimmed value); a text paragraph (its joined text); a components-mode region -/
 inductive XBlock (α : Type) where
   | step (items : List (XItem α))
   | sect (name : Option Str)
   | entry (k v : Str)
   | para (s : Str)
+  /-- a region written in components mode (`>> [mode]: components` … `>> [mode]: all`): the items of its steps -/
+  | comps (items : List (XItem α))
 
 /-- the three component tables -/
 structure XTbls (α : Type) where
@@ -115,6 +117,15 @@ def xItems (env : Env) (content : List Content) (nsec : Nat) : XTbls α → List
 def xStepTbls (env : Env) (content : List Content) (nsec : Nat) (T : XTbls α) (st : List (XItem α)) : XTbls α :=
   st.foldl (xPush env content nsec) T
 
+/-- the tables after a component DEFINED IN COMPONENTS MODE: appended as written, `defined_in_step = false` -/
+def xCPush (T : XTbls α) : XItem α → XTbls α
+  | .text _ => T
+  | .ingr _ igr0 => { T with ing := T.ing.push { igr0 with relation := ⟨.definition [] false, none⟩ } }
+  | .cw cw0 => { T with cw := T.cw.push { cw0 with relation := .definition [] false } }
+  | .timer t => { T with tm := T.tm.push t }
+
+def xCTbls (T : XTbls α) (st : List (XItem α)) : XTbls α := st.foldl xCPush T
+
 /-! ### the conditions on references -/
 
 /-- a correctly written regular ingredient reference, relative to the table of the ingredients before it:
@@ -193,6 +204,7 @@ def xRun (env : Env) : XTbls α → List Section → Section → Nat → List (S
     xRun env T (secs ++ (if cur.isEmpty then [] else [cur])) ⟨name, []⟩ 1 m r
   | T, secs, cur, num, m, .entry k v :: r => xRun env T secs cur num (metaInsert m k v) r
   | T, secs, cur, num, m, .para s :: r => xRun env T secs ⟨cur.name, cur.content ++ xParaContent s⟩ num m r
+  | T, secs, cur, num, m, .comps st :: r => xRun env (xCTbls T st) secs cur num m r
 
 /-- the conditions on the references of a described document, threaded as `xRun` -/
 def xOK (env : Env) : XTbls α → List Section → Section → Nat → List (XBlock α) → Prop
@@ -204,6 +216,7 @@ def xOK (env : Env) : XTbls α → List Section → Section → Nat → List (XB
   | T, secs, cur, _, .sect name :: r => xOK env T (secs ++ (if cur.isEmpty then [] else [cur])) ⟨name, []⟩ 1 r
   | T, secs, cur, num, .entry _ _ :: r => xOK env T secs cur num r
   | T, secs, cur, num, .para s :: r => xOK env T secs ⟨cur.name, cur.content ++ xParaContent s⟩ num r
+  | T, secs, cur, num, .comps st :: r => xOK env (xCTbls T st) secs cur num r
 
 /-! ### parsed items and blocks, described -/
 
